@@ -375,7 +375,8 @@ def instances(tier, seed):
         for shape in shapes:
             out.append(Instance('negotiate:%s:%s' % (cfg, shape), 'negotiate',
                                 {'allowed': cfg, 'shape': shape}, W=96,
-                                budget_s=3000, witness_every=3,
+                                budget_s=3000 if cfg != 'all' else 9000,
+                                witness_every=3,
                                 max_decisions=200000))
     out.append(Instance('negotiate:pair:close_early', 'negotiate',
                         {'allowed': 'pair', 'shape': 'close_early'}, W=96,
